@@ -331,6 +331,8 @@ class Check:
         ev = {"property_id": self.pid, "tier": self.tier, "seed": self.seed, "level": self.level, "coverage": self.cov,
               "assumptions": self.assumptions, "wall_s": round(time.time() - self.t0, 1), "violations": len(self.viol),
               "known_findings": [k[0] for k in self.known]}
+        if self.level in ("exploration", "fault_enumeration") and "rule" not in self.cov:
+            self.cov["rule"] = "cases enumerated by the TLA+ specification (TLC) plus seeded random cases; distinct_nontrivial counts distinct case classes recorded via Check.nontrivial()"
         if not self.cov["samples"]:
             self.cov["samples"] = ["(no sample recorded)"]
         os.makedirs(os.path.join(VERIF, "evidence"), exist_ok=True)
